@@ -61,8 +61,14 @@ pub trait ConnectionState {
 
     /// set the connection error and wake the connection
     fn set_conn_error_and_wake<T: Into<ErrorOrigin>>(&self, error: T) -> ErrorOrigin {
+        #[cfg(h3_verif)]
+        verif::yield_point("s:before_store");
         let err = self.set_conn_error(error.into());
+        #[cfg(h3_verif)]
+        verif::yield_point("s:stored");
         self.waker().wake();
+        #[cfg(h3_verif)]
+        verif::yield_point("s:woke");
         err
     }
 
@@ -99,5 +105,35 @@ pub trait ConnectionState {
     /// Returns the waker for the connection
     fn waker(&self) -> &AtomicWaker {
         &self.shared_state().waker
+    }
+}
+
+/// Named pre-emption points for external schedule-exploration harnesses. Compiled only with
+/// `--cfg h3_verif`; a no-op unless the current thread has installed a callback.
+#[cfg(h3_verif)]
+pub mod verif {
+    use std::cell::RefCell;
+
+    thread_local! {
+        static HOOK: RefCell<Option<Box<dyn FnMut(&'static str)>>> = const { RefCell::new(None) };
+    }
+
+    /// Installs (or removes) the callback invoked at every pre-emption point reached by this thread.
+    pub fn set_hook(hook: Option<Box<dyn FnMut(&'static str)>>) {
+        HOOK.with(|h| *h.borrow_mut() = hook);
+    }
+
+    /// A pre-emption point between two operations on the shared connection state.
+    pub fn yield_point(name: &'static str) {
+        let hook = HOOK.with(|h| h.borrow_mut().take());
+        if let Some(mut f) = hook {
+            f(name);
+            HOOK.with(|h| {
+                let mut slot = h.borrow_mut();
+                if slot.is_none() {
+                    *slot = Some(f);
+                }
+            });
+        }
     }
 }
